@@ -146,7 +146,7 @@ func c42CasCase(rt *rapid.T, rec *vh.Recorder) {
 	for step := 0; step < nSteps; step++ {
 		c := rapid.IntRange(0, nClients-1).Draw(rt, "client")
 		cl := clients[c]
-		if rapid.IntRange(0, 99).Draw(rt, "op") < 22 {
+		if c42Pct(rt, "op") < 22 {
 			if canRead(c) {
 				doGet(c, "get")
 				ops = append(ops, fmt.Sprintf("c%d:get", c))
@@ -157,7 +157,7 @@ func c42CasCase(rt *rapid.T, rec *vh.Recorder) {
 		}
 		// expected version
 		var exp, expKind string
-		switch k := rapid.IntRange(0, 99).Draw(rt, "expKind"); {
+		switch k := c42Pct(rt, "expKind"); {
 		case k < 50:
 			exp, expKind = cl.known, "known"
 		case k < 65:
